@@ -18,6 +18,7 @@ Definition run_case (x : sexp) : sexp :=
         if String.eqb fam "units" then run_unitsf_case payload
         else if String.eqb fam "schema" then run_schema_case payload
         else if String.eqb fam "c01typed" then run_schema_case payload   (* typed entry points: predicted by the untyped model *)
+        else if String.eqb fam "c03rebuilt" then run_schema_case payload (* the scope rebuilt from its self-description: predicted by the model of the original (C09_behaviour_all_paths) *)
         else if String.eqb fam "codegen" then run_codegen_case payload
         else if String.eqb fam "function" then run_function_case payload
         else if String.eqb fam "c11steps" then Verif.Interp.RunStep.run_steps_case payload
